@@ -352,6 +352,9 @@ def gen_other(R):
 
 
 def run_vote(R, items):
+    # same-shaped elections next to each other: the persistent argument objects (common.persist) are then refilled in place
+    # between consecutive calls on the same rule objects
+    items.sort(key=lambda it: (it["m"], len(it["P"])))
     cases = [{"items": ch} for ch in chunks(items, 10)]
     results = pmap("c13", "impl_vote", cases, deadline=180.0)
     flat = []
